@@ -184,6 +184,10 @@ func (e *Engine) Exec(idx int, op OpSpec, shared any) (out Outcome) {
 		err = e.Tpl.New().Fill(data).RenderFile(ctx, w, op.File)
 	case "Base.RenderFile": // straight on the shared base template
 		err = e.Tpl.RenderFile(ctx, w, op.File)
+	case "Load.Assign.Render":
+		err = e.Tpl.Load(op.File).Fill(data).Assign("assigned", "asg-"+op.Data.Tag).Render(ctx, w)
+	case "Load.FillNil.Assign.Render":
+		err = e.Tpl.Load(op.File).Fill(nil).Assign("assigned", "asg-"+op.Data.Tag).Assign("name", "n-"+op.Data.Tag).Render(ctx, w)
 	case "Base.Load.Render": // Load without Fill: data is what the base template holds
 		err = e.Tpl.Load(op.File).Render(ctx, w)
 	case "Base.RenderString":
